@@ -13,16 +13,42 @@ CVC5_TIMEOUT_S = int(os.environ.get('PYVC_CVC5_TIMEOUT_S', '60'))
 CVC5 = '/usr/bin/cvc5'
 
 
-def _inst_terms(pool):
+def _inst_terms(pool, offsets=(), stage=3):
+    """index terms at which every ∀-hypothesis is instantiated.  Stages (each a superset of the previous one;
+    fewer instances keep the sequence solver fast, more instances prove more):
+      0: the pool (loop indices, skolems, subscripts seen on the path) and 0
+      1: + pool terms shifted down by the bounds of the ∀-hypotheses (a fact about s2 at index k - len(s1) of s1 ++ s2)
+      2: + neighbours t+1, t-1
+      3: + last positions (bound - 1) and pool terms shifted up"""
     out = []
     seen = set()
+
+    def add(tt):
+        tt = z3.simplify(tt)
+        key = tt.get_id()
+        if key not in seen:
+            seen.add(key)
+            out.append(tt)
     for t in list(pool) + [z3.IntVal(0)]:
-        for d in (0, 1, -1):
-            tt = z3.simplify(t + d) if d else t
-            key = tt.get_id()
-            if key not in seen:
-                seen.add(key)
-                out.append(tt)
+        add(t)
+    offs = []
+    for o in offsets:
+        if z3.is_expr(o) and not z3.is_int_value(o) and not any(o.eq(x) for x in offs):
+            offs.append(o)
+    offs = offs[:6]
+    if stage >= 1:
+        for o in offs:
+            for t in list(pool):
+                add(t - o)
+    if stage >= 2:
+        for t in list(pool):
+            add(t + 1)
+            add(t - 1)
+    if stage >= 3:
+        for o in offs:
+            add(o - 1)
+            for t in list(pool):
+                add(t + o)
     return out
 
 
@@ -33,7 +59,7 @@ class Encoded:
         self.weakened = False   # True if some ∀ hypothesis was replaced by finitely many instances
 
 
-def encode(pc, hints, goal, pool, fresh):
+def encode(pc, hints, goal, pool, fresh, stage=3):
     """pc ∧ hints ∧ ¬goal as a list of quantifier-free assertions (+ the full ∀s kept aside)"""
     enc = Encoded()
     pool = list(pool)
@@ -66,7 +92,11 @@ def encode(pc, hints, goal, pool, fresh):
         nonlocal terms
         if isinstance(c, dsl.All):
             if terms is None:
-                terms = _inst_terms(pool)
+                offs = []
+                for hq in hyps:
+                    if isinstance(hq, dsl.All):
+                        offs.extend([hq.lo, hq.hi])
+                terms = _inst_terms(pool, offs, stage)
             enc.weakened = True
             k = z3.Int('q!' + c.name)
             enc.quantified.append(z3.ForAll([k], z3.Implies(z3.And(c.lo <= k, k < c.hi), _zb(c.f(k)))))
@@ -81,6 +111,58 @@ def encode(pc, hints, goal, pool, fresh):
     for h in hyps:
         enc.assertions.append(hyp_clause(h))
     return enc
+
+
+def seq_axioms(assertions, rounds=3):
+    """sound instances of sequence-theory facts that z3 is slow to find by itself:
+         nth(a ++ b ++ ..., i)    = nth of the part that contains position i
+         nth(extract(s, o, l), i) = nth(s, o + i)           for 0 <= i < l, 0 <= o, o + l <= len(s)
+       generated for the nth-terms that occur in the assertions (fixpoint up to `rounds`)."""
+    seen = set()
+    out = []
+    todo = list(assertions)
+    for _ in range(rounds):
+        found = []
+        stack = list(todo)
+        visited = set()
+        while stack:
+            e = stack.pop()
+            if not z3.is_expr(e):
+                continue
+            eid = e.get_id()
+            if eid in visited:
+                continue
+            visited.add(eid)
+            if z3.is_quantifier(e):
+                continue
+            if z3.is_app(e):
+                if e.decl().kind() == z3.Z3_OP_SEQ_NTH and eid not in seen:
+                    seen.add(eid)
+                    found.append(e)
+                stack.extend(e.children())
+        new = []
+        for e in found:
+            s, i = e.arg(0), e.arg(1)
+            if not z3.is_app(s):
+                continue
+            k = s.decl().kind()
+            if k == z3.Z3_OP_SEQ_CONCAT:
+                parts = s.children()
+                off = z3.IntVal(0)
+                for p in parts:
+                    ln = z3.Length(p)
+                    new.append(z3.Implies(z3.And(i >= off, i < off + ln), e == p[i - off]))
+                    off = off + ln
+            elif k == z3.Z3_OP_SEQ_EXTRACT:
+                base, o, l = s.arg(0), s.arg(1), s.arg(2)
+                new.append(z3.Implies(z3.And(i >= 0, i < l, o >= 0, o + l <= z3.Length(base)), e == base[o + i]))
+            elif k == z3.Z3_OP_SEQ_UNIT:
+                new.append(z3.Implies(i == 0, e == s.arg(0)))
+        if not new:
+            break
+        out.extend(new)
+        todo = new
+    return out
 
 
 def _zb(x):
@@ -103,6 +185,11 @@ def check_z3(assertions, timeout_ms):
 def check_cvc5(solver, timeout_s):
     text = solver.to_smt2()
     text = text.replace('int.to.str', 'str.from_int').replace('str.to.int', 'str.to_int')
+    if 'seq.nth_' in text:
+        # z3-internal names produced by its simplifier: nth_i is nth inside the bounds, nth_u is unspecified
+        text = text.replace('seq.nth_i', 'seq.nth').replace('seq.nth_u', 'pyvc_nth_u')
+        text = text.replace('(set-info :status', '(declare-fun pyvc_nth_u ((Seq Int) Int) Int)\n(set-info :status', 1) \
+            if '(set-info :status' in text else '(declare-fun pyvc_nth_u ((Seq Int) Int) Int)\n' + text
     text = '(set-logic ALL)\n' + text
     fd, path = tempfile.mkstemp(suffix='.smt2', prefix='pyvc_')
     try:
@@ -127,9 +214,16 @@ def discharge(ctx, ob, z3_timeout_ms=None, use_cvc5=True):
     """sets ob.result in {'unsat','sat','unknown'}; ob.model (z3 model) when a candidate exists;
     ob.genuine = True when `sat` was obtained without weakening any hypothesis"""
     z3_timeout_ms = z3_timeout_ms or Z3_TIMEOUT_MS
-    enc = encode(ctx.pc[:ob.npc], ob.hints, ob.goal, ctx.pool, ctx.fresh)
     t0 = time.time()
-    s, r, dt = check_z3(enc.assertions, z3_timeout_ms)
+    nfresh0 = ctx.nfresh
+    for stage in (0, 1, 2, 3):
+        ctx.nfresh = nfresh0          # same skolem names at every stage
+        enc = encode(ctx.pc[:ob.npc], ob.hints, ob.goal, ctx.pool, ctx.fresh, stage)
+        last = stage == 3 or not enc.weakened
+        enc.assertions = enc.assertions + seq_axioms(enc.assertions)
+        s, r, dt = check_z3(enc.assertions, z3_timeout_ms if last else max(2000, z3_timeout_ms // 4))
+        if r == z3.unsat or last:
+            break
     ob.solver = 'z3'
     ob.genuine = False
     if r == z3.unsat:
